@@ -56,11 +56,43 @@ class SliceListObj(HeapObj):
         return c
 
 
+class TypeMapObj(HeapObj):
+    """DesignSpace.VARIABLE_TYPES_TO_DTYPES ({"integer": int64, "float": float64}) for contracts with `c02_int_as_real = True`."""
+
+    def clone(self):
+        return TypeMapObj()
+
+
+def _int_as_real(ex):
+    return _on(ex) and getattr(ex.contract, "c02_int_as_real", False)
+
+
 def _is_slice(v):
     return isinstance(v, tuple) and len(v) == 4 and v[0] == "slice"
 
 
 class C02Models:
+    # ------------------------------------------------------------------ integer arrays as their real images (opt-in: `c02_int_as_real = True`)
+    def class_constant(self, ex, ci, name):
+        if _int_as_real(ex) and name == "VARIABLE_TYPES_TO_DTYPES" and ci.qualname.endswith("DesignSpace"):
+            return ex.st.alloc(TypeMapObj())
+        return NotImplemented
+
+    def getitem(self, ex, cont, key, lineno):
+        if isinstance(cont, Ref) and isinstance(ex.st.heap.get(cont.id), TypeMapObj):
+            from .engine import PyRaise
+            from .npmodel import DTYPE
+            from .values import str_lit
+
+            st = ex.st
+            kt = TStr.embed(st, key)
+            if st.decide(kt == str_lit("integer")):
+                return DTYPE.mk(st, kind="i")
+            if st.decide(kt == str_lit("float")):
+                return DTYPE.mk(st, kind="f")
+            raise PyRaise("KeyError", lineno)
+        return NotImplemented
+
     # ------------------------------------------------------------------ lists of slices (split_array_to_dict_of_arrays)
     def binop(self, ex, op, a, b, lineno, inplace=False):
         if _on(ex) and op == "Mult" and isinstance(a, tuple) and a and all(_is_slice(x) for x in a) and isinstance(b, int) and not isinstance(b, bool):
@@ -206,6 +238,16 @@ class C02Models:
 
     # ------------------------------------------------------------------ array methods
     def call_method(self, ex, recv, name, args, kwargs, lineno):
+        if _int_as_real(ex) and name == "np.astype" and _is_arr(ex, recv) and _arr(ex, recv).kind == "f" and len(args) == 1 and not kwargs:
+            from .npmodel import DTYPE, NumpyModel, _conv
+
+            d = args[0]
+            if isinstance(d, SV) and d.ty == DTYPE and NumpyModel()._kind_of_dtype(ex, d) == "i":
+                # x.astype(int64) of a real vector, the integer array being represented by its real image: truncation toward zero (a new array)
+                A = _arr(ex, recv)
+                np_ = NumpyModel()
+                ex.assumed.add("an int64 array is represented by its real image: astype(int64) of a real vector = component-wise truncation toward zero")
+                return np_.new(ex, "f", A.shape, np_.lam(A.rank, lambda *i: z3.ToReal(_conv(A.at(*i), "f", "i"))))
         if not _on(ex) or name != "np.nonzero" or args or kwargs or not _is_arr(ex, recv) or _arr(ex, recv).rank != 1:
             return NotImplemented
         # a.nonzero(): npmodel's strictly increasing enumeration of the non-zero positions; its third axiom ("every non-zero position is
